@@ -24,7 +24,8 @@ RULE = ('inputs: lexical soups (random sequences of identifiers incl. curated no
 ASSUMPTIONS = ['ES5 white space = TAB VT FF SP NBSP BOM + Unicode Zs; line terminators = LF CR LS PS (CRLF one); '
                'punctuator list of ECMA-262 7.7; synthetic AUTOSEMI tokens are exempt from the substring clause']
 BUDGET_S = {'quick': 60, 'thorough': 600}
-REQUIRED_HITS = ['tokens_checked', 'line_terminator_crossed', 'multi_line_token']
+REQUIRED_HITS = ['tokens_checked', 'line_terminator_crossed', 'multi_line_token', 'mode:comments_skipped', 'mode:comments_attached',
+                 'mode:token_calls']
 FLOOR = {'quick': 3000, 'thorough': 40000}
 
 PUNCTUATORS = '''{ } ( ) [ ] . ; , < > <= >= == != === !== + - * % ++ -- << >> >>> & | ^ ! ~ && || ? : = += -= *=
@@ -174,14 +175,26 @@ def soup(rng):
     return ''.join(parts)
 
 
-def lex_all(text):
+MODES = {'comments_skipped': {}, 'comments_attached': {'with_comments': True}, 'token_calls': {'yield_comments': True}}
+
+
+def lex_all(text, mode=None):
     from calmjs.parse.lexers.es5 import Lexer
-    lx = Lexer(yield_comments=True)
+    lx = Lexer(**MODES[mode]) if mode else Lexer(yield_comments=True)
     lx.input(text)
     from calmjs.parse.exceptions import ECMASyntaxError
     out = []
     try:
-        for t in lx:
+        if mode == 'token_calls':
+            # the other way of reading a lexer: token() until it returns None
+            while True:
+                t = lx.token()
+                if t is None:
+                    break
+                out.append((t.type, t.value, t.lexpos, t.lineno, getattr(t, 'colno', None)))
+                if len(out) > 20000:
+                    break
+        for t in (lx if mode != 'token_calls' else ()):
             out.append((t.type, t.value, t.lexpos, t.lineno, getattr(t, 'colno', None)))
             if len(out) > 20000:
                 break
@@ -193,7 +206,7 @@ def lex_all(text):
     return out, set(Lexer.keywords)
 
 
-def check(ctx, text, origin):
+def check(ctx, text, origin, mode=None):
     from calmjs.parse.exceptions import ECMASyntaxError
     try:
         toks, kw = lex_all(text)
@@ -232,6 +245,33 @@ def check(ctx, text, origin):
             continue
         seen.add(mech)
         ctx.violation(mech, {'text': text}, '%s\ninput: %r' % (detail, text[:300]))
+    if seen:
+        return
+    # "the tokens produced for any text": also those of a lexer that skips comments (the parser's), of one that
+    # attaches them to the next token (the comment-capturing parser's), and of token() calls; one of the three
+    # per case.  The same audit applies (comments are then part of the gaps), and the non-comment tokens are
+    # those of the run above
+    mode = sorted(MODES)[len(text) % 3] if mode is None else mode
+    try:
+        toks2, _ = lex_all(text, mode)
+    except ECMASyntaxError as e:
+        ctx.violation('C06:mode_dependent_rejection', {'text': text, 'mode': mode},
+                      'Lexer(yield_comments=True) lexes the text, mode %s raises %s\ninput: %r' % (mode, e, text[:300]))
+        return
+    ctx.hit('mode:' + mode)
+    for mech, detail in audit(text, toks2, kw):
+        if mech not in seen:
+            seen.add(mech)
+            ctx.violation(mech + ':' + mode, {'text': text, 'mode': mode}, '%s (lexer mode %s)\ninput: %r' % (
+                detail, mode, text[:300]))
+    strip = (lambda ts: [t for t in ts if t[0] not in ('LINE_COMMENT', 'BLOCK_COMMENT')]) if mode != 'token_calls' \
+        else (lambda ts: ts)
+    if not seen and strip(toks) != strip(toks2):
+        a, b = strip(toks), strip(toks2)
+        k = next((i for i, (x, y) in enumerate(zip(a, b)) if x != y), min(len(a), len(b)))
+        ctx.violation('C06:tokens_depend_on_mode:' + mode, {'text': text, 'mode': mode},
+                      'token %d is %r with yield_comments, %r in mode %s\ninput: %r' % (
+                          k, a[k] if k < len(a) else None, b[k] if k < len(b) else None, mode, text[:300]))
 
 
 def run(ctx):
@@ -254,7 +294,7 @@ def run(ctx):
 
 
 def replay(ctx, witness):
-    check(ctx, witness['text'], 'replay')
+    check(ctx, witness['text'], 'replay', mode=witness.get('mode'))
 
 
 def canary(ctx, spec):
